@@ -14,7 +14,9 @@ Events == ndJsonDeserialize(IOEnv.TRACE)
 VARIABLES l, bad
 vars == <<l, bad>>
 
-PctOk(e) == (\A i \in 1..Len(e.rs) : IsNum(e.rs[i]) /\ e.rs[i].k = "fin") /\ PercentileOk(e.xs, e.ps, e.rs)
+\* p arrives in hundredths (psx); the law only distinguishes the two end points from everything in between
+PAbs(x) == IF x = 0 THEN 0 ELSE IF x = 10000 THEN 100 ELSE 50
+PctOk(e) == (\A i \in 1..Len(e.rs) : IsNum(e.rs[i]) /\ e.rs[i].k = "fin") /\ PercentileOk(e.xs, [i \in 1..Len(e.psx) |-> PAbs(e.psx[i])], e.rs)
 AggOk(e) == LET x == Agg(e.f, e.xs) IN
             IF x.t = "mid" THEN \E i \in 1..Len(e.mids) :
                                    e.mids[i][1] = x.lo.n /\ e.mids[i][2] = x.hi.n /\ e.mids[i][3] = e.bits
